@@ -535,7 +535,8 @@ def _push(src, ev):
         src.on_next(rs.OnErrorMux(key, VerifError(ev.get('code', 9))))
 
 
-def run_mux(pipe, events, timescale=None, taps='all', dl_late=False, share_ops=False, warmup=None):
+def run_mux(pipe, events, timescale=None, taps='all', dl_late=False, share_ops=False, warmup=None,
+            store_split=None):
     """Push mux events directly on a MuxObservable (as the repository's own tests do).
     events: [{'t':'c'|'n'|'d', 'k':[idx], 'v':value}] ; the source completes at the end
     unless the last event is {'t':'open'}."""
@@ -547,7 +548,15 @@ def run_mux(pipe, events, timescale=None, taps='all', dl_late=False, share_ops=F
     ops = build(pipe, rec, [], ctx)
     src = Subject()
     store = rs.state.StoreManager(store_factory=rs.state.MemoryStore)
-    obs = src.pipe(rs.cast_as_mux_observable(), rs.state.with_store(store, rx.pipe(*ops)))
+    if store_split and 0 < store_split < len(pipe):
+        # two store sections chained on one multiplexed stream, each with a store manager of
+        # its own: the first `store_split` operators in the first, the others in the second
+        cut = (2 * store_split + 1) if taps == 'all' else (1 + store_split)
+        store2 = rs.state.StoreManager(store_factory=rs.state.MemoryStore)
+        obs = src.pipe(rs.cast_as_mux_observable(), rs.state.with_store(store, rx.pipe(*ops[:cut])),
+                       rs.state.with_store(store2, rx.pipe(*ops[cut:])))
+    else:
+        obs = src.pipe(rs.cast_as_mux_observable(), rs.state.with_store(store, rx.pipe(*ops)))
 
     def on_error(e):
         rec.end = {'t': 'error', 'v': enc(e), 'o': rec.nxt()}
